@@ -416,6 +416,10 @@ func (p *parser) parsePrimary() Expr {
 		case "nil":
 			return ENil{}
 		case "old":
+			if nt := p.peek(); nt.text != "(" {
+				// a program variable that happens to be called old (diffTunnels(old, new []Tunnel))
+				return EIdent{t.text}
+			}
 			if err := p.expect("("); err != nil {
 				panic(err)
 			}
